@@ -45,6 +45,7 @@ def regen_stages(ctx, pipe=True, fork=False, sources=False, text=False, cfg=Fals
                 ctx.note("stages translator: outside the fragment: " + r)
     if cfg:
         ctx.xlate("cfg", "PipeNewCFG.lean", ["pipe/unbound.go"])
+        ctx.xlate("queue", "PipeQueue.lean", ["pipe/queue.go"])
     if text:
         ctx.xlate("gotext", "PipeText.lean", ["pipe/queue.go", "pipe/pipe.go"])
 
